@@ -27,6 +27,30 @@ Theorem C02_scattered_spec : forall L W lookup recs out P,
 Proof. exact scattered_spec. Qed.
 Print Assumptions C02_scattered_spec.
 
+(* the same with the boolean well-formedness test (coverage of the prefix, primer disjoint from
+   barcode / UMI ...) as the only hypothesis; one record per input mate *)
+Theorem C02_contig_wf : forall L W lookup recs out,
+  wf_c L W = true -> demux_contig L W lookup recs = Accept out ->
+  exists P, positions_c L W = Some P /\ wf_p P = true /\ expected P false lookup recs = Some out /\
+            length out = length recs /\ p_min P <= Z.of_nat (length recs) <= p_max P.
+Proof. exact contig_wf_full. Qed.
+Print Assumptions C02_contig_wf.
+
+Theorem C02_scattered_wf : forall L W lookup recs out,
+  wf_s L W = true -> demux_scattered L W lookup recs = Accept out ->
+  exists P, positions_s L W = Some P /\ wf_p P = true /\ expected P true lookup recs = Some out /\
+            length out = length recs /\ p_min P <= Z.of_nat (length recs) <= p_max P.
+Proof. exact scattered_wf_full. Qed.
+Print Assumptions C02_scattered_wf.
+
+(* restriction-bisulfite layout (own demultiplex: pairs only, QT / ES / eq / IS tags) *)
+Theorem C02_rb_spec : forall L R lookup recs out P X,
+  positions_rb L R = Some (P, X) ->
+  demux_rb L R lookup recs = Accept out ->
+  expected_rb P X lookup recs = Some out /\ length recs = 2%nat.
+Proof. exact rb_spec. Qed.
+Print Assumptions C02_rb_spec.
+
 (* ---- what [expected] says, record by record: emitted sequence and qualities are the SAME suffix
    [insert start, end) of mate i; bc/RX/RQ/rS/lh/lq are the bases / encoded qualities at the layout's
    regions; BC/bi are what the whitelist returns for the raw barcode *)
@@ -89,14 +113,19 @@ Theorem C02_arity : forall P b lookup recs out,
 Proof. exact expected_arity. Qed.
 Print Assumptions C02_arity.
 
-(* header-safe quality encoding: injective on phred 0..51 (characters 33..84), raises above *)
+(* header-safe quality encoding: injective on phred 0..51 (characters 33..84) *)
 Theorem C02_enc_injective : forall c1 c2, 33 <= c1 < 85 -> 33 <= c2 < 85 -> enc_q c1 = enc_q c2 -> c1 = c2.
 Proof. exact enc_q_injective. Qed.
 Print Assumptions C02_enc_injective.
 
-Theorem C02_enc_raises : forall c, 85 <= c -> enc_q c = None.
-Proof. exact enc_q_raises. Qed.
-Print Assumptions C02_enc_raises.
+(* the encoder is total (never raises) and clamps phred >= 51 to 'Z' *)
+Theorem C02_enc_total : forall l, exists r, enc_qs l = Some r.
+Proof. exact enc_qs_defined. Qed.
+Print Assumptions C02_enc_total.
+
+Theorem C02_enc_clamps : forall c, 84 <= c -> enc_q c = Some 90.
+Proof. exact enc_q_clamps. Qed.
+Print Assumptions C02_enc_clamps.
 
 (* ---- UmiBarcodeDemuxMethod.__init__ : primer on the other mate -> both capture starts are right *)
 Theorem C02_derive_separate : forall a br k,
@@ -140,6 +169,13 @@ Theorem C02_registered_spec : forall g p lookup recs o out,
   p_min (pr_layout p) <= Z.of_nat (length recs) <= p_max (pr_layout p).
 Proof. exact registered_spec. Qed.
 Print Assumptions C02_registered_spec.
+
+Theorem C02_registered_spec_rb : forall g p lookup recs o out,
+  In g gen_table -> find_protocol (g_name g) = Some p -> g_kind g = 4 ->
+  demux_gen g lookup recs = Some o -> o = Accept out ->
+  expected_rb (pr_layout p) (pr_extra p) lookup recs = Some out /\ length recs = 2%nat.
+Proof. exact registered_spec_rb. Qed.
+Print Assumptions C02_registered_spec_rb.
 
 (* ---- non-vacuity / refutation on literal layouts (independent of the regenerated table) *)
 Definition ex_lookup : lookup_t := fun raw => if Nat.eqb (length raw) 8 then Some (7, raw) else None.
